@@ -134,6 +134,28 @@ def gen_marker(rng, depth=3, leaves=None, focus=None):
     return go(n, depth), n, feats
 
 
+def gen_same_var_marker(rng, leaves=None):
+    """2-4 clauses on ONE string variable (==, !=, in, not in with several values, reversed substring tests), joined by random
+    and/or with random grouping: the shapes on which the same-variable merge of the simplifier is exercised at parse time."""
+    var = rng.choice(list(STRVARS)); vals = STRVARS[var]
+    def leaf():
+        m = rng.random()
+        if m < 0.35: return f"{var} {rng.choice(['==', '!='])} {q(rng, rng.choice(vals))}"
+        if m < 0.7:
+            toks = rng.sample(vals, rng.choice([1, 2, min(3, len(vals))]))
+            return f"{var} {rng.choice(['in', 'not in'])} {q(rng, rng.choice([' ', ', ', ',']).join(toks))}"
+        return f"{q(rng, rng.choice(vals)[: rng.choice([2, 3, 5])])} {rng.choice(['in', 'not in'])} {var}"
+    k = leaves or rng.choice([2, 2, 3, 3, 4])
+    parts = [leaf() for _ in range(k)]
+    while len(parts) > 1:
+        i = rng.randrange(len(parts) - 1)
+        op = rng.choice([" and ", " or "])
+        a, b = parts[i], parts[i + 1]
+        merged = a + op + b
+        if len(parts) > 2 and rng.random() < 0.6: merged = f"({merged})"
+        parts[i:i + 2] = [merged]
+    return parts[0]
+
 def two_reversed_substring_leaves(*texts):
     """Known-finding region D35: at least two reversed substring leaves ('x' in V / 'x' not in V) with
     different literals on one variable among the given marker texts."""
